@@ -35,7 +35,7 @@ ASSUMPTIONS = ["scipy.linalg.expm is the reference exponential", "tolerances: 1e
 ENV = {"NUMBA_BOUNDSCHECK": "1"}
 TIMEOUT = {"quick": 1200, "thorough": 7200}
 
-ALL_MODELS = M.NUC_REV + M.NUC_NS + M.CODON + M.USERCODON + M.PROTEIN + M.DINUC
+ALL_MODELS = M.NUC_REV + M.NUC_NS + M.SOLVED + M.CODON + M.USERCODON + M.PROTEIN + M.DINUC
 LENGTHS = [0.0, 1e-6, 1e-3, 0.05, 0.3, 1.0, 3.0, 10.0]
 
 
@@ -129,24 +129,31 @@ def decide_lf(res, prob, rng):
     nonuniform = prob["mprobs"] is not None
     enodes = M.edges(prob["tree"])
     esel = enodes if len(enodes) <= 4 else rng.sample(enodes, 4)
-    setting = prob.get("expm") or "either"
+    solved = model in M.SOLVED
+    setting = "closed-form" if solved else (prob.get("expm") or "either")
     for e in esel:
         nm = e["name"]
         detail = {"edge": nm, "replay_case": rc}
-        try:
-            Q = lf.get_rate_matrix_for_edge(nm, calibrated=True).to_array()
-        except Exception as ex:  # noqa: BLE001
+        if solved:
+            # closed-form P (rate_matrix_required=False): the function reports no Q; the generator it must correspond
+            # to is rebuilt from the published definition by the harness
+            Q, _wp = M.build_Q(model, states, M.edge_param_values(prob, nm), prob["mprobs"], sm=sm)
+            res.count("solved-model-edges")
+        else:
+            try:
+                Q = lf.get_rate_matrix_for_edge(nm, calibrated=True).to_array()
+            except Exception as ex:  # noqa: BLE001
+                res.evals += 1
+                res.witness(exc_mechanism("C05/get_rate_matrix_for_edge", ex), model=model, replay_case=rc)
+                continue
+            check_Q(res, fam, Q, wp, model, detail)
+            # uncalibrated = Q * length
+            Qt = lf.get_rate_matrix_for_edge(nm, calibrated=False).to_array()
             res.evals += 1
-            res.witness(exc_mechanism("C05/get_rate_matrix_for_edge", ex), model=model, replay_case=rc)
-            continue
-        check_Q(res, fam, Q, wp, model, detail)
+            if not np.allclose(Qt, Q * e["length"], rtol=1e-9, atol=1e-12):
+                res.witness("C05/uncalibrated-Q-is-not-Q-times-length", model=model, **detail)
         if nonuniform and nonunit:
             res.sig(model, setting, f"cond1e{cond_bucket(Q)}")
-        # uncalibrated = Q * length
-        Qt = lf.get_rate_matrix_for_edge(nm, calibrated=False).to_array()
-        res.evals += 1
-        if not np.allclose(Qt, Q * e["length"], rtol=1e-9, atol=1e-12):
-            res.witness("C05/uncalibrated-Q-is-not-Q-times-length", model=model, **detail)
         # stationarity / reversibility of the generator
         if model in M.STATIONARY:
             res.evals += 1
@@ -176,8 +183,13 @@ def decide_lf(res, prob, rng):
     # length sweep on one edge through the lf (P(0)=I, semigroup)
     e = rng.choice(enodes)
     nm = e["name"]
-    Q = lf.get_rate_matrix_for_edge(nm, calibrated=True).to_array()
+    if solved:
+        Q, _wp = M.build_Q(model, states, M.edge_param_values(prob, nm), prob["mprobs"], sm=sm)
+    else:
+        Q = lf.get_rate_matrix_for_edge(nm, calibrated=True).to_array()
     Ps = {}
+    # the other edges' matrices must not move when this edge's length changes
+    others_before = {o["name"]: lf.get_psub_for_edge(o["name"], **({"bin": bin_names[0]} if bin_names[0] else {})).to_array().copy() for o in enodes if o["name"] != nm}
     for t in LENGTHS:
         try:
             lf.set_param_rule("length", edge=nm, init=t)
@@ -192,6 +204,13 @@ def decide_lf(res, prob, rng):
         res.evals += 1
         if np.abs(Ps[t] - ref).max() > 1e-8:
             res.witness(f"C05/P-differs-from-expm/lf-{setting}", model=model, maxdiff=float(np.abs(Ps[t] - ref).max()), length=t, edge=nm, replay_case=rc)
+    for onm, before in others_before.items():
+        now = lf.get_psub_for_edge(onm, **({"bin": bin_names[0]} if bin_names[0] else {})).to_array()
+        res.evals += 1
+        res.count("other-edges-unchanged-checked")
+        if np.abs(now - before).max() > 1e-12:
+            res.witness("C05/changing-one-edge-length-changes-another-edges-P", model=model, changed=nm, other=onm, maxdiff=float(np.abs(now - before).max()), replay_case=rc)
+            break
     if 0.0 in Ps:
         res.evals += 1
         res.count("P(0)=I-checked")
@@ -348,7 +367,7 @@ def run_case(case):
         model = case["model"]
         for i in range(case["n"]):
             bins = rng.choice([1, 1, 3]) if M.kind_of(model) == "nuc" else 1
-            prob = M.gen_problem(rng, model, ntips=rng.randint(3, 4), ncols=3, ambig=0.0, scoped=rng.random() < 0.4, bins=bins, expm_setting=rng.choice([None, "eigen", "checked", "pade", "either"]), zero_frac=0.15)
+            prob = M.gen_problem(rng, model, ntips=rng.randint(3, 4), ncols=3, ambig=0.0, scoped=rng.random() < 0.4, bins=bins, expm_setting=None if model in M.SOLVED else rng.choice([None, "eigen", "checked", "pade", "either"]), zero_frac=0.15)
             if rng.random() < 0.3:
                 prob["params"] = M.random_params(rng, model, wide=True)
             decide_lf(res, prob, rng)
@@ -368,5 +387,5 @@ def run_case(case):
 
 
 def required(counters, tier):
-    need = ["checked-exponentiator-raised", "Q-checked", "P-checked", "P(0)=I-checked", "semigroup-checked", "stationarity-checked", "bin-rates-checked", "adversarial-Q", "backend:Fast", "backend:Checked", "backend:Pade", "backend:Taylor", "backend:SemiSymmetric", "setting:either", "setting:pade"]
+    need = ["solved-model-edges", "other-edges-unchanged-checked", "checked-exponentiator-raised", "Q-checked", "P-checked", "P(0)=I-checked", "semigroup-checked", "stationarity-checked", "bin-rates-checked", "adversarial-Q", "backend:Fast", "backend:Checked", "backend:Pade", "backend:Taylor", "backend:SemiSymmetric", "setting:either", "setting:pade"]
     return [n for n in need if not counters.get(n)]
